@@ -243,9 +243,16 @@ func DriveC01(w *ev.Writer, o Opts) {
 		if i%o.Shards != o.Shard {
 			continue
 		}
+		orig := append([]byte{}, bb...)
 		r1, err := boc.DeserializeBoc(bb)
-		r2, _ := boc.DeserializeBoc(bb)
+		r2, err2 := boc.DeserializeBoc(bb)
 		if err != nil {
+			continue
+		}
+		// parsing is an observation of the bytes: they are the caller's, and a second parse sees the same bag
+		if !bytes.Equal(orig, bb) || err2 != nil || len(r2) != len(r1) {
+			w.Emit(ev.M{"k": "Panic", "where": "reparse", "src": "reparse", "boc": hex.EncodeToString(orig),
+				"panic": fmt.Sprintf("DeserializeBoc changed its input or a second parse of the same bytes differs (input modified: %v, second error: %v, roots %d / %d)", !bytes.Equal(orig, bb), err2, len(r1), len(r2))})
 			continue
 		}
 		for k := range r1 {
